@@ -1,10 +1,9 @@
 /-
 Generic lemmas about replacing one element of a thread list (`setAt`), shared by the step-machine proofs.
 -/
-import MetricsVerif.Model.OnceCell
+import MetricsVerif.Model.Sched
 
 namespace MetricsVerif
-open MetricsVerif.OnceCell (setAt)
 
 theorem setAt_length {α : Type} (l : List α) (i : Nat) (a : α) : (setAt l i a).length = l.length := by
   induction l generalizing i with
